@@ -203,15 +203,22 @@ Definition h_rule_name : str := [114;117;108;101;95;110;97;109;101].
 Definition h_field_name : str := [102;105;101;108;100;95;110;97;109;101].
 Definition h_pattern : str := [112;97;116;116;101;114;110].
 Definition h_field_refs : str := [102;105;101;108;100;95;114;101;102;115].
+(* the two wrapped holes of repo commit 481c8b3:  self._escape_literal(field_name)  self._escape_literal(schema_name) *)
+Definition h_field_name_esc : str := [115;101;108;102;46;95;101;115;99;97;112;101;95;108;105;116;101;114;97;108;40;102;105;101;108;100;95;110;97;109;101;41].
+Definition h_schema_upper_esc : str := [115;101;108;102;46;95;101;115;99;97;112;101;95;108;105;116;101;114;97;108;40;115;99;104;101;109;97;95;110;97;109;101;41].
 
+(* a plain hole pastes the value; a wrapped hole pastes its _escape_literal image.  The model follows whatever the
+   generated templates say (a tree that pastes the raw name is modelled as pasting the raw name). *)
 Definition hole_schema (s : schema) (h : str) : str :=
   if str_eqb h h_schema_name then sc_name s
   else if str_eqb h h_schema_upper then py_upper (sc_name s) (sc_upper s)
+  else if str_eqb h h_schema_upper_esc then escape_literal (py_upper (sc_name s) (sc_upper s))
   else if str_eqb h h_field_refs then join gbnf_schema_refs_sep (map rule_name_of (sc_fields s))
   else [].
 Definition hole_field (s : schema) (f : field) (h : str) : str :=
   if str_eqb h h_rule_name then rule_name_of f
   else if str_eqb h h_field_name then fd_name f
+  else if str_eqb h h_field_name_esc then escape_literal (fd_name f)
   else if str_eqb h h_pattern then pattern_of f
   else hole_schema s h.
 
@@ -233,13 +240,30 @@ Definition guard_on (g : str) (s : schema) (env : bool) : bool :=
   else if str_eqb g g_no_envelope then negb env
   else false.
 
-Definition schema_lines (s : schema) (env : bool) : list str :=
+(* the interpreter of a (guard, template) list; the compiler runs it on the GENERATED list *)
+Definition schema_lines_of (prog : list (str * list gpart)) (s : schema) (env : bool) : list str :=
   flat_map (fun e : str * list gpart =>
               if str_eqb (fst e) g_per_field then map (fun f => inst (hole_field s f) (snd e)) (sc_fields s)
               else if guard_on (fst e) s env then [inst (hole_schema s) (snd e)] else [])
-           gbnf_schema_prog.
+           prog.
+Definition schema_lines (s : schema) (env : bool) : list str := schema_lines_of gbnf_schema_prog s env.
 
-Definition compile_schema (s : schema) (env : bool) : str := join gbnf_schema_line_sep (schema_lines s env).
+Definition compile_schema_of (prog : list (str * list gpart)) (s : schema) (env : bool) : str :=
+  join gbnf_schema_line_sep (schema_lines_of prog s env).
+Definition compile_schema (s : schema) (env : bool) : str := compile_schema_of gbnf_schema_prog s env.
+
+(* the rule line of ONE field: the per_field template of the generated list (schema-level holes do not occur in it) *)
+Definition field_line_of (hf : str -> str) : str :=
+  match find (fun e : str * list gpart => str_eqb (fst e) g_per_field) gbnf_schema_prog with
+  | Some e => inst hf (snd e)
+  | None => []
+  end.
+Definition field_line (f : field) : str := field_line_of (hole_field (mkSchema [] [] []) f).
+
+(* does a template paste hole h? *)
+Definition tpl_has_hole (prog : list (str * list gpart)) (h : str) : bool :=
+  existsb (fun e : str * list gpart =>
+             existsb (fun p => match p with PLit _ => false | PHole x => str_eqb x h end) (snd e)) prog.
 
 (* ---- CONTRACT route: FIELD[name]::chain  (regex _CONTRACT_FIELD_PATTERN + the strips) ----------------
    ASCII whitespace only (specs containing non-ASCII whitespace are out of model). The chain text is parsed
@@ -286,7 +310,8 @@ Lemma pin_priority :
 Proof. reflexivity. Qed.
 
 Definition known_hole (h : str) : bool :=
-  str_in h [h_schema_name; h_schema_upper; h_rule_name; h_field_name; h_pattern; h_field_refs].
+  str_in h [h_schema_name; h_schema_upper; h_rule_name; h_field_name; h_pattern; h_field_refs;
+            h_field_name_esc; h_schema_upper_esc].
 Definition known_guard (g : str) : bool :=
   str_in g [g_always; g_per_field; g_has_fields; g_no_fields; g_envelope; g_no_envelope].
 
@@ -295,3 +320,10 @@ Lemma pin_schema_prog_closed :
              known_guard (fst e) &&
              forallb (fun p => match p with PLit _ => true | PHole h => known_hole h end) (snd e)) gbnf_schema_prog = true.
 Proof. vm_compute. reflexivity. Qed.
+
+(* the translator's flags say exactly: no template pastes the raw name (true of the pre-481c8b3 tree as well, where
+   both flags are false and both raw holes occur -- this pin must hold on every tree the model can follow) *)
+Lemma pin_escape_flags :
+  gbnf_field_name_escaped = negb (tpl_has_hole gbnf_schema_prog h_field_name) /\
+  gbnf_schema_name_escaped = negb (tpl_has_hole gbnf_schema_prog h_schema_upper).
+Proof. vm_compute. split; reflexivity. Qed.
